@@ -1,7 +1,7 @@
 (* templates: common *)
 (* C17: replays the operation tree on the extracted functional model (coq/MtbddDefs.v) and compares with what
    the driver observed on libvata.
-   input line:  c17 <u|s> <NV> <ops> ||| V <values per handle> EQ <matrix> P <paths per handle> W <..> W2 <..>
+   input line:  c17 <u|s> <NV> <ops> ||| V <values per handle> EQ <matrix> P <paths per handle> W <..> W2 <..> WR <..>
    output line: OK | FAIL <gates> ; then [DRIFT <what>] and flags
    gates:  value    GetValue on every total assignment = value of the model diagram (construct_ev, apply*_ev, ...)
            dcvalue  GetValue on an assignment with don't-care positions is the value of some total refinement (dc_gate)
@@ -99,6 +99,12 @@ let () = each_line (fun l ->
       let seen = List.map (fun s -> n_of_int (int_of_string s)) (String.split_on_char '.' w) in
       let both = apply2 veq (fun x y -> N.add (N.mul x (n_of_int 8)) y) a b in
       if not (same_set veq seen (leaves both)) then fail "void2") (pairs ds);
+    expect t "WR";
+    List.iter (fun (a, b) ->
+      let w = word t in
+      let seen = if w = "-" then [] else List.map (fun s -> n_of_int (int_of_string s)) (String.split_on_char '.' w) in
+      let both = apply2 veq (fun x y -> N.add (N.mul x (n_of_int 8)) y) a b in
+      if not (same_set veq seen (leaves both)) then fail "void2_reuse") (pairs ds);
     (* measured flags for the evidence *)
     let maxsize = List.fold_left (fun acc d -> max acc (int_of_nat (size_dd d))) 0 ds in
     let eqpairs = ref 0 in
